@@ -207,6 +207,7 @@ int main(int argc, char **argv)
 	vw_mkaddr(&X4, &ALEN4, "203.0.113.9", 4999); vw_mkaddr6(&X6, &ALEN6, "2001:db8::9", 4999); vw_mkaddr(&LOCALDNS, &ALEN, "127.0.0.1", 5353);
 	X_ADDR = X4; ALEN = ALEN4;
 	xp_init("C10", a.tier, 1024, a.budget_s);
+	xp_guard(NULL, &W.cur, 1);
 	if (a.replay) { xp_load_replay(a.replay); job(XC.job); return 0; }
 	hc_quiet();
 	xp_run_jobs(NDOM * 3, job, a.workers);
